@@ -629,8 +629,16 @@ class Fn:
                     _fail(node, "keyword %s in call of %s" % (k.arg, name))
                 given[k.arg] = k.value
             texts, conds = [], []
+            self.moved = set()
             for pn, pt in info["params"]:
                 if pn in given:
+                    if pn in info.get("consumes", []):
+                        # [C14] callee spec option "consumes": [parameters it updates in place]: the argument must be a bare
+                        # local, and the caller may not read it again (it leaves the definitely-assigned set after the call),
+                        # so the update is invisible to the caller except through what the callee returns.  Off by default.
+                        if not (isinstance(given[pn], ast.Name) and given[pn].id in self.locals):
+                            _fail(node, "argument %s of %s is consumed by the callee: pass a local" % (pn, name))
+                        self.moved.add(given[pn].id)
                     tx = self.ex(given[pn], da, pt)
                     texts.append(tx[0])
                     conds += tx[2]
@@ -697,6 +705,22 @@ class Fn:
                 _fail(s, ".append on a parameter (the caller's list would change)")
             tx = self.ex(s.value.args[0], da, t[1])
             return self.guarded(tx[2], "(assign (fun s => %s))" % self.setter(v, "(%s ++ [%s])" % (self.get(v), tx[0]))), da
+        if self.spec.get("stmt_patterns") and ast.unparse(s) in self.spec["stmt_patterns"]:
+            # [C14] spec option "stmt_patterns": {"<exact ast.unparse text of a statement>": {"assign": local, "coq": "<new value,
+            # {var} = current value of a variable>", "ok": "<bool>"?}}: a trusted reading of ONE statement as an assignment to one
+            # local (a numpy boolean-mask store on a local array, a `with suppress(..)` block that only rebinds one name).  Any
+            # edit of the statement changes its text: the translation then fails closed.  Off by default.
+            sp = self.spec["stmt_patterns"][ast.unparse(s)]
+            v = sp["assign"]
+            if v not in self.locals:
+                _fail(s, "stmt_patterns assigns %s, which is not a local" % v)
+            conds = [self.subst(sp["ok"], da, s)] if sp.get("ok") else []
+            return self.guarded(conds, "(assign (fun s => %s))" % self.setter(v, self.subst(sp["coq"], da, s))), da | {v}
+        if isinstance(s, ast.With) and self.spec.get("transparent_with") and len(s.items) == 1 and s.items[0].optional_vars is None \
+                and ast.unparse(s.items[0].context_expr) in self.spec["transparent_with"]:
+            # [C14] spec option "transparent_with": [exact text of context expressions] that neither bind a name nor change
+            # control flow or the translated state (a warnings filter): the body is translated in place.  Off by default.
+            return self.block(s.body, da)
         if self.spec.get("skip_statements") and ast.unparse(s) in self.spec["skip_statements"]:
             # [C01] spec option "skip_statements": [exact ast.unparse text]: statements that only set up opaque helper objects
             # (a pyproj Transformer, its keyword dict) read by nothing but spec patterns; they have no effect on the translated
@@ -709,7 +733,10 @@ class Fn:
             return "skip", da
         if isinstance(s, ast.Expr) and isinstance(s.value, ast.Call) and isinstance(s.value.func, ast.Attribute) \
                 and isinstance(s.value.func.value, ast.Name) and not s.value.keywords \
-                and s.value.func.attr in self.spec.get("method_updates", {}) and s.value.func.value.id in self.locals:
+                and s.value.func.attr in self.spec.get("method_updates", {}) and (s.value.func.value.id in self.locals or (
+                    self.spec.get("method_updates_on_params") and s.value.func.value.id in dict(self.params))):
+            # [C12] spec option "method_updates_on_params": the updated object may be a PARAMETER (a hashlib object handed in and
+            # handed back: the caller sees the update, which is the documented protocol of update_hash); off by default
             # [C03] spec option "method_updates": {"<method>": {"coq": "<new value of the object; {self}, {0}, {1}..>", "ok": "<bool>",
             # "args": [types]}}: the statement `v.method(a..)` on a LOCAL v updates v in place (a mutating method translated
             # elsewhere); where "ok" fails the method raises
@@ -749,7 +776,17 @@ class Fn:
             # expressions were evaluated, so the handler starts from the state at the `try`.
             if s.orelse or s.finalbody or len(s.handlers) != 1 or len(s.body) != 1 or s.handlers[0].name is not None:
                 _fail(s, "try statement outside the try_except subset")
-            if not isinstance(s.body[0], (ast.Assign, ast.AugAssign, ast.Expr)):
+            simple = (ast.Assign, ast.AugAssign, ast.Expr)
+            ok_body = isinstance(s.body[0], simple)
+            if not ok_body and self.spec.get("try_single_any"):
+                # [C12] spec option "try_single_any": the one statement of the try body may also be a `return <expr>` or an `if`
+                # whose branches are each ONE simple statement: such a statement still stores (or returns) only after all of its
+                # expressions were evaluated, so the handler starts from the state at the `try`.  Off by default.
+                b0 = s.body[0]
+                ok_body = isinstance(b0, ast.Return) or (
+                    isinstance(b0, ast.If) and len(b0.body) == 1 and isinstance(b0.body[0], simple)
+                    and (not b0.orelse or (len(b0.orelse) == 1 and isinstance(b0.orelse[0], simple))))
+            if not ok_body:
                 _fail(s, "try body is not a single simple statement")
             a, da_a = self.block(s.body, set(da))
             b, da_b = self.block(s.handlers[0].body, set(da))
@@ -802,7 +839,9 @@ class Fn:
                 bf, names = self.bind_fun(t0, s)
                 if getattr(self, "call_stateful", False):      # [C07] self_calls: bind the value, then take over the callee's final self
                     bf = "(fun x_ s => %s (fst x_) (%s_set_self (snd x_) s))" % (bf, self.name)
-                return self.guarded(conds, "(call_ %s %s)" % (txt, bf)), da | names
+                moved = getattr(self, "moved", set())          # [C14] locals given away to a "consumes" parameter
+                self.moved = set()
+                return self.guarded(conds, "(call_ %s %s)" % (txt, bf)), ((da - moved) | names)
             if isinstance(t0, ast.Name):
                 if t0.id not in self.vars:
                     _fail(s, "assignment to undeclared local %s" % t0.id)
@@ -1026,6 +1065,55 @@ def find_function(tree, qualname):
     return node
 
 
+# [C12] ----- spec option "hoist_calls": {"<call text>": "<local>"}.  A call of a translated function (or of this function itself)
+# that occurs NESTED in a simple statement (`return g(f(x))`, `h.update(f(x))`) is moved in front of that statement as
+# `<local> = <call>`; the statement then reads the local.  Exact `ast.unparse` text, every declared text must occur, each
+# statement may contain at most one hoisted call and nothing else in it may have an effect (the spec's note says so), so the
+# order of evaluation is unchanged.  Off by default.
+def hoist_calls(fdef, table):
+    used = set()
+
+    class Rep(ast.NodeTransformer):
+        def __init__(self):
+            self.found = None
+
+        def visit_Call(self, node):
+            txt = ast.unparse(node)
+            if txt in table:
+                if self.found is not None:
+                    raise Untranslatable("hoist_calls: two hoisted calls in one statement")
+                self.found = (table[txt], node)
+                used.add(txt)
+                return ast.copy_location(ast.Name(id=table[txt], ctx=ast.Load()), node)
+            return self.generic_visit(node)
+
+    def do_block(stmts):
+        out = []
+        for st in stmts:
+            if isinstance(st, (ast.If, ast.For, ast.While)):
+                st.body = do_block(st.body)
+                st.orelse = do_block(st.orelse)
+                out.append(st)
+            elif isinstance(st, (ast.Expr, ast.Assign, ast.Return)) and not (
+                    isinstance(st, ast.Assign) and isinstance(st.value, ast.Call) and ast.unparse(st.value) in table):
+                r = Rep()
+                new = r.visit(st)
+                if r.found is not None:
+                    asg = ast.Assign(targets=[ast.Name(id=r.found[0], ctx=ast.Store())], value=r.found[1])
+                    out.append(ast.copy_location(asg, st))
+                out.append(new)
+            else:
+                out.append(st)
+        return out
+
+    fdef.body = do_block(fdef.body)
+    for txt in table:
+        if txt not in used:
+            raise Untranslatable("hoist_calls: declared call %r does not occur nested in a simple statement" % txt)
+    ast.fix_missing_locations(fdef)
+    return fdef
+
+
 def translate_module(repo, modname, mod):
     m = Mod(mod)
     out = ["(* GENERATED by tools/py2coq_imp.py from the current /repo working tree -- do not edit. *)",
@@ -1047,6 +1135,8 @@ def translate_module(repo, modname, mod):
         if fdef.decorator_list and not all(ast.unparse(d) in spec.get("allow_decorators", []) for d in fdef.decorator_list):
             raise Untranslatable("%s:%s: decorated function" % (spec["source"], spec["qualname"]))
         try:
+            if spec.get("hoist_calls"):     # [C12] off by default
+                fdef = hoist_calls(fdef, spec["hoist_calls"])
             fn = Fn(m, spec, fdef)
             text = fn.translate()
         except Untranslatable as e:
@@ -1066,7 +1156,8 @@ def translate_module(repo, modname, mod):
                                          % (spec["source"], spec["qualname"], pn, src_def.get(pn), dd["py"]))
                 defaults[pn] = dd["coq"]
             m.selfmeths[fdef.name] = {"coq": fn.name, "params": [(p_, t_) for p_, t_ in fn.params if p_ != "self"], "rtype": fn.rtype,
-                                      "fuelled": fn.fuelled, "mutates": "self" in spec.get("mutates", []), "defaults": defaults}
+                                      "fuelled": fn.fuelled, "mutates": "self" in spec.get("mutates", []), "defaults": defaults,
+                                      "consumes": list(spec.get("consumes", []))}
         digest = hashlib.sha1(ast.dump(fdef).encode()).hexdigest()[:16]
         out.append("(* %s:%s lines %d-%d ast %s *)\n%s\n" % (spec["source"], spec["qualname"], fdef.lineno, fdef.end_lineno, digest, text))
     if mod.get("context"):
